@@ -679,3 +679,315 @@ Proof.
   destruct (fullRange_loop_ok _ _ _ k (Z.to_nat (sc_n s - 1 + 1)) 0 0 0 R ltac:(lia)) as (r & Hr).
   replace (Z.of_nat (Z.to_nat (sc_n s - 1 + 1)) - 1) with (sc_n s - 1) in Hr by lia. eauto.
 Qed.
+
+(** * segDataBuffer *)
+Lemma sdb_rep b : sdb_inv b -> Rep (b_sl b) (b_n b) (sdb_live b).
+Proof.
+  intros (Hw & Hn & Hl & Hc & Hi & Hr). unfold sdb_live. rsplit; try lia; [|reflexivity].
+  rewrite lenZ_takeZ by lia. lia.
+Qed.
+
+Definition count_le (bound : Z) (l : list item) : Z := lenZ (filter (fun i => i_seq i <=? bound) l).
+
+Lemma count_le_cons bound c l :
+  count_le bound (c :: l) = (if i_seq c <=? bound then 1 else 0) + count_le bound l.
+Proof. unfold count_le. cbn [filter]. destruct (i_seq c <=? bound); rewrite ?lenZ_cons; lia. Qed.
+
+Lemma count_le_range bound l : 0 <= count_le bound l <= lenZ l.
+Proof.
+  induction l as [|c l IH]; [cbn; lia|]. rewrite count_le_cons, lenZ_cons. destruct (i_seq c <=? bound); lia.
+Qed.
+
+Lemma count_old_loop bound sl n : forall l2 l1 acc,
+  Rep sl n (l1 ++ l2) -> 0 <= acc -> acc + lenZ l2 < two32 ->
+  sdb_count_old sl bound (lenZ l1) (length l2) acc = Ok (acc + count_le bound l2).
+Proof.
+  induction l2 as [|x l2 IH]; intros l1 acc R Ha Hb.
+  - cbn. f_equal. lia.
+  - cbn [length sdb_count_old]. rewrite lenZ_cons in Hb. pose proof (lenZ_nonneg l2). pose proof (lenZ_nonneg l1).
+    assert (Hlen : lenZ (l1 ++ x :: l2) = n) by apply R.
+    rewrite lenZ_app, lenZ_cons in Hlen.
+    rewrite (rep_get _ sl n (l1 ++ x :: l2) (lenZ l1) x R (nthZ_mid l1 l2 x)) by lia.
+    cbn [bind]. rewrite count_le_cons.
+    replace (lenZ l1 + 1) with (lenZ (l1 ++ [x])) by (rewrite lenZ_app, lenZ_cons, lenZ_nil; lia).
+    assert (R' : Rep sl n ((l1 ++ [x]) ++ l2)) by (rewrite <- app_assoc; exact R).
+    destruct (i_seq x <=? bound).
+    + rewrite u32_small by lia. rewrite IH by (try exact R'; lia). f_equal. lia.
+    + rewrite IH by (try exact R'; lia). f_equal.
+Qed.
+
+(** an increasing list of integers spans at least its length *)
+Lemma incr_span a l : incr (a :: l) = true -> a + lenZ l <= last (a :: l) 0.
+Proof.
+  revert a; induction l as [|b l IH]; intros a H; [cbn; lia|].
+  cbn [incr] in H. apply andb_true_iff in H as [H1 H2]. specialize (IH b H2).
+  rewrite lenZ_cons. change (last (a :: b :: l) 0) with (last (b :: l) 0). lia.
+Qed.
+
+Lemma incr_all_gt a l : incr (a :: l) = true -> Forall (fun y => a < y) l.
+Proof.
+  revert a; induction l as [|c l IHl]; intros a H; [constructor|].
+  cbn [incr] in H. apply andb_true_iff in H as [H1 H2]. constructor; [lia|].
+  specialize (IHl c H2). eapply Forall_impl; [|exact IHl]. cbn; intros; lia.
+Qed.
+
+(** in an increasing list the elements above a bound are what remains after dropping those up to it *)
+Lemma sorted_filter_drop bound l :
+  incr (map i_seq l) = true ->
+  filter (fun i => negb (i_seq i <=? bound)) l = dropZ (count_le bound l) l.
+Proof.
+  induction l as [|a l IH]; intros H; [reflexivity|].
+  rewrite count_le_cons. cbn [filter]. pose proof (count_le_range bound l) as CR.
+  destruct (i_seq a <=? bound) eqn:E; cbn [negb].
+  - cbn [dropZ]. replace (1 + count_le bound l <=? 0) with false by lia.
+    replace (1 + count_le bound l - 1) with (count_le bound l) by lia.
+    apply IH. cbn [map] in H. eapply incr_tail; eauto.
+  - cbn [map] in H. pose proof (incr_all_gt _ _ H) as F.
+    assert (Z0 : count_le bound l = 0).
+    { unfold count_le. replace (filter (fun i => i_seq i <=? bound) l) with (@nil item); [reflexivity|].
+      symmetry. clear - F E. induction l as [|c l IHl]; [reflexivity|].
+      cbn [map] in F. inversion F; subst. cbn [filter]. replace (i_seq c <=? bound) with false by lia. auto. }
+    rewrite Z0. cbn [Z.add dropZ Z.leb Z.compare]. f_equal.
+    clear - F E. induction l as [|c l IHl]; [reflexivity|].
+    cbn [map] in F. inversion F; subst. cbn [filter]. replace (i_seq c <=? bound) with false by lia. cbn [negb].
+    f_equal. auto.
+Qed.
+
+Lemma last_item_seq_app l x : last_item_seq (l ++ [x]) = i_seq x.
+Proof. unfold last_item_seq. rewrite map_app. cbn [map]. apply last_last. Qed.
+
+Definition item_ok (it : item) : Prop := 0 <= i_seq it < two32.
+
+Lemma sdb_add_spec b it :
+  sdb_inv b -> item_ok it ->
+  exists b' ok, sdb_add b it = Ok (b', ok) /\ sdb_inv b' /\ (sdb_live b', ok) = spec_badd (b_size b) (sdb_live b) it
+                /\ b_size b' = b_size b.
+Proof.
+  intros I Hit. pose proof (sdb_rep b I) as R. pose proof I as (Hw & Hn & Hl & Hc & Hi & Hr).
+  pose proof R as (RL & _). unfold item_ok in Hit.
+  unfold sdb_add. destruct (b_n b =? 0) eqn:E0.
+  - assert (b_n b = 0) by lia. assert (EL : sdb_live b = []) by (apply lenZ_zero_nil; lia).
+    rewrite EL in R. replace (b_n b) with 0 in R by lia.
+    assert (Hpos : 0 < slen (b_sl b)) by lia.
+    destruct (rep_set_append "segDataBuffer.add:index" _ 0 [] it R Hpos) as (sl' & Hs & R' & L1 & L2).
+    rewrite Hs. cbn [bind]. do 2 eexists; split; [reflexivity|].
+    assert (E1 : u32 (b_n b + 1) = 1) by (rewrite u32_small; lia).
+    rewrite E1. cbn [app] in R'. destruct R' as (R1 & R2 & R3 & R4). change (0 + 1) with 1 in *.
+    split; [|split]; cbn [b_size b_n b_sl].
+    + unfold sdb_inv, sdb_live. cbn [b_size b_n b_sl]. rewrite R4. cbn [map incr].
+      split; [lia|]. split; [lia|]. split; [lia|]. split; [lia|]. split; [reflexivity|]. constructor; [exact Hit|constructor].
+    + rewrite EL. unfold sdb_live. cbn [b_n b_sl]. rewrite R4. reflexivity.
+    + reflexivity.
+  - assert (Hn0 : 0 < b_n b) by lia.
+    destruct (exists_last_Z (sdb_live b) ltac:(lia)) as (l' & ilast & EL).
+    assert (Ll' : lenZ l' = b_n b - 1) by (rewrite EL, lenZ_app, lenZ_cons, lenZ_nil in RL; lia).
+    rewrite (u32_small (b_n b - 1)) by lia.
+    assert (Hget : nthZ (b_n b - 1) (sdb_live b) = Some ilast) by (rewrite EL, <- Ll'; apply nthZ_mid).
+    rewrite (rep_get _ _ _ _ _ _ R Hget) by lia. cbn [bind].
+    assert (Elast : last_item_seq (sdb_live b) = i_seq ilast) by (rewrite EL; apply last_item_seq_app).
+    unfold spec_badd. destruct (sdb_live b) as [|c0 lt] eqn:ELive; [destruct l'; discriminate|].
+    rewrite <- ELive in *. clear c0 lt ELive. rewrite Elast, RL.
+    destruct (i_seq it <=? i_seq ilast) eqn:Ele.
+    { do 2 eexists; split; [reflexivity|]. auto. }
+    (* all stored numbers are below the new one *)
+    assert (Flt : Forall (fun z => z < i_seq it) (map i_seq (sdb_live b))).
+    { rewrite EL, map_app in Hi |- *. cbn [map] in *. apply Forall_app; split.
+      - eapply Forall_impl; [|apply (incr_lt_last _ _ Hi)]. cbn. intros. lia.
+      - constructor; [lia|constructor]. }
+    destruct (b_n b <? b_size b) eqn:Efull.
+    { (* room left *)
+      destruct (rep_set_append "segDataBuffer.add:index" _ _ _ it R ltac:(lia)) as (sl' & Hs & R' & L1 & L2).
+      rewrite Hs. cbn [bind]. rewrite u32_small by lia. do 2 eexists; split; [reflexivity|].
+      destruct R' as (R1 & R2 & R3 & R4).
+      split; [|split]; cbn [b_size b_n b_sl].
+      - unfold sdb_inv, sdb_live. cbn [b_size b_n b_sl]. rewrite R4.
+        split; [lia|]. split; [lia|]. split; [lia|]. split; [lia|]. split.
+        + rewrite map_app. cbn [map]. apply incr_app_gt; assumption.
+        + apply Forall_app; split; [exact Hr|constructor; [exact Hit|constructor]].
+      - unfold sdb_live. cbn [b_n b_sl]. rewrite R4. reflexivity.
+      - reflexivity. }
+    (* full: discard what falls out of the window of the new number *)
+    assert (Hfull : b_n b = b_size b) by lia.
+    (* the first stored number is at most seq - size, so the bound does not wrap and nd >= 1 *)
+    destruct (sdb_live b) as [|i0 lt] eqn:ELive; [destruct l'; discriminate|].
+    assert (Hspan : i_seq i0 + lenZ lt <= i_seq ilast).
+    { cbn [map] in Hi. pose proof (incr_span _ _ Hi) as Hs.
+      unfold last_item_seq in Elast. cbn [map] in Elast. rewrite Elast in Hs.
+      unfold lenZ in *. rewrite map_length in Hs. exact Hs. }
+    assert (H0 : 0 <= i_seq i0) by (inversion Hr; subst; lia).
+    rewrite lenZ_cons in RL.
+    rewrite (u32_small (i_seq it - b_size b)) by lia.
+    rewrite <- ELive in *.
+    pose proof (count_old_loop (i_seq it - b_size b) (b_sl b) (b_n b) (sdb_live b) [] 0 R ltac:(lia)) as CB.
+    assert (RL' : lenZ (sdb_live b) = b_n b) by (rewrite ELive, lenZ_cons; lia).
+    specialize (CB ltac:(lia)). change (lenZ (@nil item)) with 0 in CB.
+    rewrite <- lenZ_length, RL', Z.add_0_l, Hfull in CB. rewrite CB. cbn [bind].
+    pose proof (count_le_range (i_seq it - b_size b) (sdb_live b)) as CR.
+    set (nd := count_le (i_seq it - b_size b) (sdb_live b)) in *.
+    assert (Hnd1 : 1 <= nd).
+    { subst nd. rewrite ELive, count_le_cons. replace (i_seq i0 <=? i_seq it - b_size b) with true by lia.
+      pose proof (count_le_range (i_seq it - b_size b) lt). lia. }
+    destruct (rep_copy_tail "segDataBuffer.add:slice" _ _ _ 0 nd R ltac:(lia) ltac:(lia)) as (sl1 & Hc1 & R1 & L1 & L2).
+    rewrite Hc1. cbn [bind]. rewrite takeZ_nonpos in R1 by lia. cbn [app] in R1.
+    rewrite (u32_small (nd - 1)) by lia. rewrite (u32_small (b_n b - (nd - 1))) by lia.
+    rewrite (u32_small (b_n b - (nd - 1) - 1)) by lia.
+    replace (b_n b - (nd - 0)) with (b_n b - nd) in R1 by lia.
+    replace (b_n b - (nd - 1) - 1) with (b_n b - nd) by lia.
+    destruct (rep_set_append "segDataBuffer.add:index" sl1 _ _ it R1 ltac:(lia)) as (sl2 & Hs2 & R2 & L3 & L4).
+    rewrite Hs2. cbn [bind]. do 2 eexists; split; [reflexivity|].
+    destruct R2 as (Q1 & Q2 & Q3 & Q4).
+    replace (b_n b - nd + 1) with (b_n b - (nd - 1)) in * by lia.
+    split; [|split]; cbn [b_size b_n b_sl].
+    + unfold sdb_inv, sdb_live. cbn [b_size b_n b_sl]. rewrite Q4.
+      split; [lia|]. split; [lia|]. split; [lia|]. split; [lia|]. split.
+      * rewrite map_app, map_dropZ. cbn [map]. apply incr_app_gt; [apply incr_dropZ; exact Hi|].
+        apply Forall_dropZ. exact Flt.
+      * apply Forall_app; split; [apply Forall_dropZ; exact Hr|constructor; [exact Hit|constructor]].
+    + unfold sdb_live at 1. cbn [b_n b_sl]. rewrite Q4.
+      replace (lenZ (sdb_live b) <? b_size b) with false by lia.
+      rewrite (sorted_filter_drop _ _ Hi). reflexivity.
+    + reflexivity.
+Qed.
+
+Lemma get_loop_ok sl n live seqNr : forall fuel,
+  Rep sl n live -> Z.of_nat fuel <= n ->
+  exists r, sdb_get_loop sl seqNr (Z.of_nat fuel - 1) fuel = Ok r /\
+            match r with Some it => In it live /\ i_seq it = seqNr | None => True end.
+Proof.
+  induction fuel as [|fuel IH]; intros R Hf; [cbn; exists None; split; [reflexivity|exact I]|].
+  cbn [sdb_get_loop]. pose proof R as (R1 & _).
+  destruct (nthZ_some live (Z.of_nat (S fuel) - 1) ltac:(lia)) as (x & Hx).
+  rewrite (rep_get _ _ _ _ _ _ R Hx) by lia. cbn [bind].
+  destruct (i_seq x =? seqNr) eqn:E.
+  - eexists; split; [reflexivity|]. split; [eapply nthZ_In; eauto|lia].
+  - replace (Z.of_nat (S fuel) - 1 - 1) with (Z.of_nat fuel - 1) by lia. apply IH; [exact R|lia].
+Qed.
+
+Lemma sdb_getItem_ok b seqNr :
+  sdb_inv b -> exists r, sdb_getItem b seqNr = Ok r /\
+                         match r with Some it => In it (sdb_live b) /\ i_seq it = seqNr | None => True end.
+Proof.
+  intros I. pose proof (sdb_rep b I) as R. pose proof I as (Hw & Hn & Hl & Hc & Hi & Hr).
+  unfold sdb_getItem. destruct (b_n b =? 0) eqn:E; [exists None; split; [reflexivity|exact Logic.I]|].
+  rewrite u32_small by lia.
+  destruct (get_loop_ok _ _ _ seqNr (Z.to_nat (b_n b - 1 + 1)) R ltac:(lia)) as (r & Hr' & Hm).
+  replace (Z.of_nat (Z.to_nat (b_n b - 1 + 1)) - 1) with (b_n b - 1) in Hr' by lia. eauto.
+Qed.
+
+(** resize that does not cut into the stored items keeps the invariant; the other case is the shrink defect *)
+Lemma sdb_resize_inv b nw :
+  sdb_inv b -> 0 < nw < two32 -> b_n b <= nw ->
+  exists b', sdb_resize b nw = Ok b' /\ sdb_inv b' /\ sdb_live b' = sdb_live b /\ b_size b' = nw /\ b_n b' = b_n b.
+Proof.
+  intros I Hnw Hle. pose proof (sdb_rep b I) as R. pose proof I as (Hw & Hn & Hl & Hc & Hi & Hr).
+  unfold sdb_resize. destruct (nw =? b_size b) eqn:E1.
+  - exists b. repeat split; auto; lia.
+  - replace (nw <? b_n b) with false by lia.
+    destruct (rep_realloc izero (b_sl b) _ _ nw R Hle) as ((R1 & R2 & R3 & R4) & L1 & L2).
+    eexists; split; [reflexivity|]. unfold sdb_inv, sdb_live. cbn [b_sl b_n b_size]. rewrite R4, L1, L2.
+    repeat split; auto; lia.
+Qed.
+
+Lemma sdb_drop_loop_spec b seqNr : forall l2 l1,
+  Rep (b_sl b) (b_n b) (l1 ++ l2) -> 0 < b_n b < two32 ->
+  exists b', sdb_drop_loop b seqNr (lenZ l1) (length l2) = Ok b' /\ b_size b' = b_size b
+    /\ slen (b_sl b') = slen (b_sl b) /\ scap (b_sl b') = scap (b_sl b)
+    /\ (b' = b \/ exists i, 0 <= i < b_n b /\ b_n b' = b_n b - 1 /\
+                   Rep (b_sl b') (b_n b - 1) (takeZ i (l1 ++ l2) ++ dropZ (i + 1) (l1 ++ l2))).
+Proof.
+  induction l2 as [|x l2 IH]; intros l1 R Hn.
+  - cbn. exists b. repeat split; auto.
+  - cbn [length sdb_drop_loop]. pose proof (lenZ_nonneg l2). pose proof (lenZ_nonneg l1).
+    assert (Hlen : lenZ (l1 ++ x :: l2) = b_n b) by apply R.
+    rewrite lenZ_app, lenZ_cons in Hlen.
+    rewrite (rep_get _ _ _ (l1 ++ x :: l2) (lenZ l1) x R (nthZ_mid l1 l2 x)) by lia.
+    cbn [bind]. destruct (i_seq x =? seqNr) eqn:E.
+    + set (i := lenZ l1) in *.
+      destruct (rep_copy_tail "segDataBuffer.dropSeqNr:slice" _ _ _ i (i + 1) R ltac:(lia) ltac:(lia)) as (sl' & Hc & R' & L1 & L2).
+      rewrite Hc. cbn [bind]. rewrite u32_small by lia. eexists; split; [reflexivity|].
+      cbn [b_size b_sl b_n]. repeat split; auto. right. exists i.
+      replace (b_n b - (i + 1 - i)) with (b_n b - 1) in R' by lia.
+      split; [lia|split; [reflexivity|exact R']].
+    + replace (lenZ l1 + 1) with (lenZ (l1 ++ [x])) by (rewrite lenZ_app, lenZ_cons, lenZ_nil; lia).
+      assert (R' : Rep (b_sl b) (b_n b) ((l1 ++ [x]) ++ l2)) by (rewrite <- app_assoc; exact R).
+      destruct (IH (l1 ++ [x]) R' Hn) as (b' & Hs & Q). exists b'. split; [exact Hs|].
+      rewrite <- app_assoc in Q. exact Q.
+Qed.
+
+Lemma sdb_dropSeqNr_inv b seqNr :
+  sdb_inv b -> exists b', sdb_dropSeqNr b seqNr = Ok b' /\ sdb_inv b' /\ b_size b' = b_size b /\ b_n b' <= b_n b.
+Proof.
+  intros I. pose proof (sdb_rep b I) as R. pose proof I as (Hw & Hn & Hl & Hc & Hi & Hr). pose proof R as (RL & _).
+  unfold sdb_dropSeqNr. destruct (b_n b =? 0) eqn:E0.
+  - exists b. repeat split; auto; lia.
+  - destruct (sdb_drop_loop_spec b seqNr (sdb_live b) [] R ltac:(lia)) as (b' & Hs & Q1 & Q2 & Q3 & Q).
+    change (lenZ (@nil item)) with 0 in Hs. rewrite <- lenZ_length, RL in Hs. rewrite Hs.
+    exists b'. split; [reflexivity|]. destruct Q as [->|(i & Hi' & Hn' & R')].
+    + repeat split; auto; lia.
+    + cbn [app] in R'. destruct R' as (R1 & R2 & R3 & R4).
+      split; [|split; [exact Q1|lia]].
+      unfold sdb_inv, sdb_live. rewrite Hn', R4, Q1, Q2, Q3.
+      split; [lia|]. split; [lia|]. split; [lia|]. split; [lia|]. split.
+      * apply incr_remove; [lia|exact Hi].
+      * apply Forall_app; split; [apply Forall_takeZ|apply Forall_dropZ]; exact Hr.
+Qed.
+
+Lemma unshifted_loop_len sl n : forall l2 l1 acc,
+  Rep sl n (l1 ++ l2) ->
+  exists r, sdb_unshifted_loop sl (lenZ l1) (length l2) acc = Ok r /\ lenZ acc <= lenZ r <= lenZ acc + lenZ l2.
+Proof.
+  induction l2 as [|x l2 IH]; intros l1 acc R.
+  - cbn. eexists; split; [reflexivity|]. lia.
+  - cbn [length sdb_unshifted_loop]. pose proof (lenZ_nonneg l2). pose proof (lenZ_nonneg l1).
+    assert (Hlen : lenZ (l1 ++ x :: l2) = n) by apply R.
+    rewrite lenZ_app, lenZ_cons in Hlen.
+    rewrite (rep_get _ sl n (l1 ++ x :: l2) (lenZ l1) x R (nthZ_mid l1 l2 x)) by lia.
+    cbn [bind]. destruct (i_shifted x).
+    + eexists; split; [reflexivity|]. rewrite lenZ_cons. lia.
+    + replace (lenZ l1 + 1) with (lenZ (l1 ++ [x])) by (rewrite lenZ_app, lenZ_cons, lenZ_nil; lia).
+      assert (R' : Rep sl n ((l1 ++ [x]) ++ l2)) by (rewrite <- app_assoc; exact R).
+      destruct (IH (l1 ++ [x]) (acc ++ [i_seq x]) R') as (r & Hr & Hl). exists r. split; [exact Hr|].
+      rewrite lenZ_app, lenZ_cons, lenZ_nil in Hl. rewrite lenZ_cons. lia.
+Qed.
+
+Lemma sdb_removeUnshifted_inv b :
+  sdb_inv b -> exists b' uns, sdb_removeUnshifted b = Ok (b', uns) /\ sdb_inv b' /\ b_size b' = b_size b /\ b_n b' <= b_n b.
+Proof.
+  intros I. pose proof (sdb_rep b I) as R. pose proof I as (Hw & Hn & Hl & Hc & Hi & Hr). pose proof R as (RL & _).
+  unfold sdb_removeUnshifted. destruct (b_n b =? 0) eqn:E0.
+  - exists b, []. repeat split; auto; lia.
+  - destruct (unshifted_loop_len (b_sl b) (b_n b) (sdb_live b) [] [] R) as (uns & Hu & Hlen).
+    change (lenZ (@nil item)) with 0 in Hu. rewrite <- lenZ_length, RL in Hu. rewrite Hu. cbn [bind].
+    change (lenZ (@nil Z)) with 0 in Hlen. destruct (lenZ uns =? 0) eqn:E1.
+    + exists b, []. repeat split; auto; lia.
+    + destruct (rep_copy_tail "segDataBuffer.removeUnshifted:slice" _ _ _ 0 (lenZ uns) R ltac:(lia) ltac:(lia))
+        as (sl' & Hc' & R' & L1 & L2).
+      rewrite Hc'. cbn [bind]. rewrite u32_small by lia. do 2 eexists; split; [reflexivity|].
+      rewrite takeZ_nonpos in R' by lia. cbn [app] in R'. destruct R' as (R1 & R2 & R3 & R4).
+      replace (b_n b - (lenZ uns - 0)) with (b_n b - lenZ uns) in * by lia.
+      split; [|cbn [b_size b_n]; split; [reflexivity|lia]].
+      unfold sdb_inv, sdb_live. cbn [b_sl b_n b_size]. rewrite R4.
+      split; [lia|]. split; [lia|]. split; [lia|]. split; [lia|]. split.
+      * rewrite map_dropZ. apply incr_dropZ. exact Hi.
+      * apply Forall_dropZ. exact Hr.
+Qed.
+
+(** segDataBuffer.resize below the number of items keeps c.size: the next add indexes past len *)
+Definition sdb_of (size : Z) (l : list Z) : sdb :=
+  match sdb_adds (sdb_new size) (map (fun n => mkItem n (n * 2000) 2000 false) l) with Ok b => b | _ => sdb_new size end.
+
+Lemma sdb_new_inv w : 0 < w < two32 -> sdb_inv (sdb_new w).
+Proof.
+  intros H. unfold sdb_inv, sdb_new, sdb_live. cbn [b_size b_n b_sl].
+  destruct (rep_make izero w ltac:(lia)) as (R & L1 & L2). rewrite L1, L2.
+  split; [lia|]. split; [lia|]. split; [lia|]. split; [lia|]. rewrite takeZ_nonpos by lia. split; [reflexivity|constructor].
+Qed.
+
+Lemma shrink_refuted :
+  exists b b', sdb_inv b /\ sdb_resize b 3 = Ok b' /\ b_size b' = 8 /\ slen (b_sl b') = 3 /\ b_n b' = 3 /\
+               sdb_add b' (mkItem 6 12000 2000 false) = Panic "segDataBuffer.add:index".
+Proof.
+  exists (sdb_of 8 [1; 2; 3; 4; 5]). eexists. split.
+  - unfold sdb_inv. vm_compute. repeat split; try congruence. repeat constructor; congruence.
+  - split; [vm_compute; reflexivity|]. repeat split; vm_compute; reflexivity.
+Qed.
